@@ -87,10 +87,12 @@ def main():
             dst = os.path.join(VERIF, "seeded", name)
             os.makedirs(dst, exist_ok=True)
             for f in ("patch.diff", "demo.py"):
-                shutil.copy(os.path.join(src, f), os.path.join(dst, f))
+                if os.path.realpath(os.path.join(src, f)) != os.path.realpath(os.path.join(dst, f)):
+                    shutil.copy(os.path.join(src, f), os.path.join(dst, f))
             if out.get("_rebased_patch"):
                 # keep the patch in a form that applies to the current tree
-                shutil.copy(os.path.join(src, "patch.diff"), os.path.join(dst, "patch.original.diff"))
+                if not os.path.exists(os.path.join(dst, "patch.original.diff")):
+                    shutil.copy(os.path.join(src, "patch.diff"), os.path.join(dst, "patch.original.diff"))
                 open(os.path.join(dst, "patch.diff"), "w").write(out["_rebased_patch"])
             old = {}
             if os.path.exists(os.path.join(dst, "meta.json")):
